@@ -63,12 +63,16 @@ def holds (st : Storage) (items : List (RegDef × List Val)) (obs : List RegObs)
       go (off + dataLen o.written) is os
    go 0 items obs)
 
-/-- contiguous layout: the fields tile `[digits, digits + Σ size)` -/
+/-- the fields, in column order -/
+def byColumn (fs : List Field) : List Field := fs.mergeSort (fun a b => decide (a.start ≤ b.start))
+
+/-- contiguous layout: the fields, whatever the order they are declared in, tile
+`[digits, digits + Σ size)` -/
 def contiguous (r : RegDef) : Bool :=
   let rec go (pos : Nat) : List Field → Bool
     | [] => true
     | f :: fs => f.start == pos && f.stop == pos + f.size && go (pos + f.size) fs
-  go r.digits r.fields
+  go r.digits (byColumn r.fields)
 
 def itemOk (st : Storage) (r : RegDef) (data : List Val) : Bool :=
   Spec.C04.identOk r.ident && decide (r.ident.length ≤ r.digits) && data.length == r.fields.length &&
